@@ -148,16 +148,13 @@ template <class T, glm::qualifier Q> static void reg_swz() {
 	const char tl = (char)SA<T>::L; const char dom = (tl == 'f' || tl == 'd') ? 'G' : 'I';
 	auto sp = [&](const char* s) { std::string o; for (; *s; ++s) o += (*s == '@') ? tl : (*s == '$') ? dom : *s; return strdup(o.c_str()); };
 	typedef glm::vec<2, T, Q> V2; typedef glm::vec<3, T, Q> V3; typedef glm::vec<4, T, Q> V4;
-	if constexpr (!std::is_same<T, unsigned>::value)  // two-letter operator swizzles of aligned uint vectors do not compile (known finding of C17)
-		add_op(nm<T, Q>("swz_v2_yx", "vec2"), sp("@$2"), sp("@2"), 'B', 'B', 0, FN { V2 v = VL<2, T, Q>::ld(in); launder_ptr(&v); V2 r = SWZ(v, yx, V2(v.y, v.x)); ST(out, r); });
+	add_op(nm<T, Q>("swz_v2_yx", "vec2"), sp("@$2"), sp("@2"), 'B', 'B', 0, FN { V2 v = VL<2, T, Q>::ld(in); launder_ptr(&v); V2 r = SWZ(v, yx, V2(v.y, v.x)); ST(out, r); });
 	// (a three-letter operator swizzle of a vec2 does not compile at all: known finding of C17)
 	add_op(nm<T, Q>("swz_v2_xyxy", "vec4"), sp("@$2"), sp("@4"), 'B', 'B', 0, FN { V2 v = VL<2, T, Q>::ld(in); launder_ptr(&v); V4 r = SWZ(v, xyxy, V4(v.x, v.y, v.x, v.y)); ST(out, r); });
-	if constexpr (!std::is_same<T, unsigned>::value)  // two-letter operator swizzles of aligned uint vectors do not compile (known finding of C17)
-		add_op(nm<T, Q>("swz_v3_zy", "vec2"), sp("@$3"), sp("@2"), 'B', 'B', 0, FN { V3 v = VL<3, T, Q>::ld(in); launder_ptr(&v); V2 r = SWZ(v, zy, V2(v.z, v.y)); ST(out, r); });
+	add_op(nm<T, Q>("swz_v3_zy", "vec2"), sp("@$3"), sp("@2"), 'B', 'B', 0, FN { V3 v = VL<3, T, Q>::ld(in); launder_ptr(&v); V2 r = SWZ(v, zy, V2(v.z, v.y)); ST(out, r); });
 	add_op(nm<T, Q>("swz_v3_zyx", "vec3"), sp("@$3"), sp("@3"), 'B', 'B', 0, FN { V3 v = VL<3, T, Q>::ld(in); launder_ptr(&v); V3 r = SWZ(v, zyx, V3(v.z, v.y, v.x)); ST(out, r); });
 	add_op(nm<T, Q>("swz_v3_xxzz", "vec4"), sp("@$3"), sp("@4"), 'B', 'B', 0, FN { V3 v = VL<3, T, Q>::ld(in); launder_ptr(&v); V4 r = SWZ(v, xxzz, V4(v.x, v.x, v.z, v.z)); ST(out, r); });
-	if constexpr (!std::is_same<T, unsigned>::value)  // two-letter operator swizzles of aligned uint vectors do not compile (known finding of C17)
-		add_op(nm<T, Q>("swz_v4_wx", "vec2"), sp("@$4"), sp("@2"), 'B', 'B', 0, FN { V4 v = VL<4, T, Q>::ld(in); launder_ptr(&v); V2 r = SWZ(v, wx, V2(v.w, v.x)); ST(out, r); });
+	add_op(nm<T, Q>("swz_v4_wx", "vec2"), sp("@$4"), sp("@2"), 'B', 'B', 0, FN { V4 v = VL<4, T, Q>::ld(in); launder_ptr(&v); V2 r = SWZ(v, wx, V2(v.w, v.x)); ST(out, r); });
 	add_op(nm<T, Q>("swz_v4_xzy", "vec3"), sp("@$4"), sp("@3"), 'B', 'B', 0, FN { V4 v = VL<4, T, Q>::ld(in); launder_ptr(&v); V3 r = SWZ(v, xzy, V3(v.x, v.z, v.y)); ST(out, r); });
 	add_op(nm<T, Q>("swz_v4_wzyx", "vec4"), sp("@$4"), sp("@4"), 'B', 'B', 0, FN { V4 v = VL<4, T, Q>::ld(in); launder_ptr(&v); V4 r = SWZ(v, wzyx, V4(v.w, v.z, v.y, v.x)); ST(out, r); });
 	// stores through a swizzle, and arithmetic on a swizzle
@@ -168,14 +165,41 @@ template <class T, glm::qualifier Q> static void reg_swz() {
 		v = V3(w.z, w.y, w.x);
 #endif
 		ST(out, v); });
-	if constexpr (!std::is_same<T, unsigned>::value)  // two-letter operator swizzles of aligned uint vectors do not compile (known finding of C17)
-		add_op(nm<T, Q>("swz_store_v4_yx", "vec4"), sp("@$4 @$2"), sp("@4"), 'B', 'B', 0, FN { V4 v = VL<4, T, Q>::ld(in); V2 w = VL<2, T, Q>::ld(in + 4); launder_ptr(&v);
+	add_op(nm<T, Q>("swz_store_v4_yx", "vec4"), sp("@$4 @$2"), sp("@4"), 'B', 'B', 0, FN { V4 v = VL<4, T, Q>::ld(in); V2 w = VL<2, T, Q>::ld(in + 4); launder_ptr(&v);
 #if GLM_CONFIG_SWIZZLE == GLM_SWIZZLE_OPERATOR
 		v.yx = w;
 #else
 		v = V4(w.y, w.x, v.z, v.w);
 #endif
 		ST(out, v); });
+}
+// integer functions on the *builtin* integer types of every width (signed char ... unsigned long long): GLM's own sized typedefs never
+// name `long` (pre-C++11 int64 is long long), so the bundled make_unsigned table and the per-width specialisations are only reached
+// this way. A value is composed from two 32-bit slots and narrowed to T; results go back as two 32-bit slots.
+template <class T> static inline T ldw(const Slot* s) { return (T)(typename std::make_unsigned<T>::type)((uint64_t)s[0].u | ((uint64_t)s[1].u << 32)); }
+template <class T> static inline void stw(Slot* o, T v) { uint64_t w = (uint64_t)(int64_t)v; if (!std::is_signed<T>::value) w = (uint64_t)(typename std::make_unsigned<T>::type)v; o[0].ul = 0; o[1].ul = 0; o[0].u = (uint32_t)w; o[1].u = (uint32_t)(w >> 32); }
+template <class T, glm::qualifier Q> static void reg_wide(const char* tn) {
+	const int W = (int)sizeof(T) * 8; (void)W;
+	auto name = [&](const char* b, const char* shape) { return std::string(b) + "." + shape + "." + tn + "." + QN<Q>::name(); };
+	typedef glm::vec<2, T, Q> V2;
+	add_op(name("bitCount", "scalar"), "uI2", "i1", 'B', 'B', 0, FN { ST1(out, (int)glm::bitCount(ldw<T>(in))); });
+	add_op(name("findLSB", "scalar"), "uI2", "i1", 'B', 'B', 0, FN { ST1(out, (int)glm::findLSB(ldw<T>(in))); });
+	add_op(name("findMSB", "scalar"), "uI2", "i1", 'B', 'B', 0, FN { ST1(out, (int)glm::findMSB(ldw<T>(in))); });
+	add_op(name("bitCount", "vec2"), "uI2 uI2", "i2", 'B', 'B', 0, FN { ST(out, glm::vec<2, int, Q>(glm::bitCount(V2(ldw<T>(in), ldw<T>(in + 2))))); });
+	add_op(name("findLSB", "vec2"), "uI2 uI2", "i2", 'B', 'B', 0, FN { ST(out, glm::vec<2, int, Q>(glm::findLSB(V2(ldw<T>(in), ldw<T>(in + 2))))); });
+	add_op(name("findMSB", "vec2"), "uI2 uI2", "i2", 'B', 'B', 0, FN { ST(out, glm::vec<2, int, Q>(glm::findMSB(V2(ldw<T>(in), ldw<T>(in + 2))))); });
+	add_op(name("bitfieldReverse", "scalar"), "uI2", "u2", 'B', 'B', 0, FN { stw<T>(out, glm::bitfieldReverse(ldw<T>(in))); });
+	add_op(name("bitfieldExtract", "scalar"), "uI2 uI1 uI1", "u2", 'B', 'B', 0, FN { const int w = (int)sizeof(T) * 8; int off = (int)(in[2].u % (unsigned)(w + 1)); int bits = (int)(in[3].u % (unsigned)(w - off + 1)); stw<T>(out, glm::bitfieldExtract(ldw<T>(in), off, bits)); });
+	add_op(name("bitfieldInsert", "scalar"), "uI2 uI2 uI1 uI1", "u2", 'B', 'B', 0, FN { const int w = (int)sizeof(T) * 8; int off = (int)(in[4].u % (unsigned)(w + 1)); int bits = (int)(in[5].u % (unsigned)(w - off + 1)); stw<T>(out, glm::bitfieldInsert(ldw<T>(in), ldw<T>(in + 2), off, bits)); });
+	add_op(name("mask", "scalar"), "uI1", "u2", 'B', 'B', 0, FN { const int w = (int)sizeof(T) * 8; stw<T>(out, glm::mask((T)(in[0].u % (unsigned)(w + 1)))); });
+	add_op(name("bitfieldFillOne", "scalar"), "uI2 uI1 uI1", "u2", 'B', 'B', 0, FN { const int w = (int)sizeof(T) * 8; int off = (int)(in[2].u % (unsigned)(w + 1)); int bits = (int)(in[3].u % (unsigned)(w - off + 1)); stw<T>(out, glm::bitfieldFillOne(ldw<T>(in), off, bits)); });
+	add_op(name("bitfieldFillZero", "scalar"), "uI2 uI1 uI1", "u2", 'B', 'B', 0, FN { const int w = (int)sizeof(T) * 8; int off = (int)(in[2].u % (unsigned)(w + 1)); int bits = (int)(in[3].u % (unsigned)(w - off + 1)); stw<T>(out, glm::bitfieldFillZero(ldw<T>(in), off, bits)); });
+	add_op(name("bitfieldRotateLeft", "scalar"), "uI2 uI1", "u2", 'B', 'B', 0, FN { const int w = (int)sizeof(T) * 8; stw<T>(out, glm::bitfieldRotateLeft(ldw<T>(in), (int)(in[2].u % (unsigned)w))); });
+	add_op(name("bitfieldRotateRight", "scalar"), "uI2 uI1", "u2", 'B', 'B', 0, FN { const int w = (int)sizeof(T) * 8; stw<T>(out, glm::bitfieldRotateRight(ldw<T>(in), (int)(in[2].u % (unsigned)w))); });
+	if constexpr (std::is_signed<T>::value) {
+		add_op(name("sign", "scalar"), "uI2", "u2", 'B', 'B', 0, FN { stw<T>(out, glm::sign(ldw<T>(in))); });
+		add_op(name("sign", "vec2"), "uI2 uI2", "u2 u2", 'B', 'B', 0, FN { V2 r = glm::sign(V2(ldw<T>(in), ldw<T>(in + 2))); stw<T>(out, r.x); stw<T>(out + 2, r.y); });
+	}
 }
 template <class T> struct sign_ok { static const bool v = std::numeric_limits<T>::is_signed; };
 template <class T, glm::qualifier Q, int L> static void reg_sign_int() {
@@ -192,6 +216,8 @@ template <glm::qualifier Q> static void reg_q() {
 	reg_swz<float, Q>(); reg_swz<int, Q>();
 #else
 	reg_ctors<double, Q>(); reg_ctors<unsigned, Q>();
+	reg_wide<signed char, Q>("schar"); reg_wide<unsigned char, Q>("uchar"); reg_wide<short, Q>("short"); reg_wide<unsigned short, Q>("ushort");
+	reg_wide<long, Q>("long"); reg_wide<unsigned long, Q>("ulong"); reg_wide<long long, Q>("llong"); reg_wide<unsigned long long, Q>("ullong");
 	reg_swz<unsigned, Q>();  // operator swizzles of aligned double vectors do not compile (uninstantiable group recorded by C17)
 	reg_arith_float<double, Q, 1>(); reg_arith_float<double, Q, 2>(); reg_arith_float<double, Q, 3>(); reg_arith_float<double, Q, 4>();
 	reg_arith_int<unsigned, Q, 1>(); reg_arith_int<unsigned, Q, 2>(); reg_arith_int<unsigned, Q, 3>(); reg_arith_int<unsigned, Q, 4>();
